@@ -3,7 +3,7 @@ RULE = ('same deviation-bounded enumeration as C01 but with window 1 KiB and inp
         'decoded by the vendored educational decoder R (instrumented) and judged: R accepts and regenerates the source; content-size / checksum (own XXH64) / dictID / '
         'reserved+unused bits truthful; per sequence offset <= window (or <= position + dictionary while position <= window), offset != 0, matchLength >= 3; per block '
         'regenerated <= min(128 KiB, window, maxBlockSize), compressed size < content, no RLE first block followed by others, no < 4-byte FSE table + bitstream tail, '
-        'no 2-byte zero sequence count; distinct = distinct frames; non-trivial = frame has at least one sequence')
+        'no 2-byte zero sequence count; also every input length 0..200 in 3 textures with checksum (per-length bookkeeping), and the streamed frames of every call history of depth 2 over 6 configurations (the C02 search with the conformance oracle); distinct = distinct frames; non-trivial = frame has at least one sequence')
 
 
 def run(vc, tier):
@@ -11,10 +11,14 @@ def run(vc, tier):
     src = ['harness/c01_roundtrip.c', 'ref/edu_decoder.c']
     if tier == 'quick':
         c.run_vx_unit('c05-shapes', src, 'asan', ['--mode', 'conf', '--set', 'shapes', '--K', 4, '--D', 1], share=0.8)
+        c.run_vx_unit('c05-lens', src, 'asan', ['--mode', 'conf', '--set', 'lens', '--L', 200, '--D', 0], share=0.5)
+        c.run_vx_unit('c05-stream', ['harness/c02_cstream.c', 'ref/edu_decoder.c'], 'asan', ['--depth', 2, '--api', 0, '--ncfg', 6, '--judge', 8], share=0.6)
         c.run_vx_unit('c05-absuffix', src, 'asan', ['--mode', 'conf', '--set', 'absuffix', '--L', 4, '--D', 0], share=0.9)
     else:
         c.run_vx_unit('c05-shapes', src, 'asan', ['--mode', 'conf', '--set', 'shapes', '--K', 5, '--D', 2], share=0.6)
         c.run_vx_unit('c05-shapes-big', src, 'asan', ['--mode', 'conf', '--set', 'shapes', '--K', 4, '--big', 1, '--D', 1], share=0.5)
+        c.run_vx_unit('c05-lens', src, 'asan', ['--mode', 'conf', '--set', 'lens', '--L', 700, '--D', 1], share=0.4)
+        c.run_vx_unit('c05-stream', ['harness/c02_cstream.c', 'ref/edu_decoder.c'], 'asan', ['--depth', 3, '--api', 0, '--ncfg', 6, '--judge', 8], share=0.6)
         c.run_vx_unit('c05-absuffix', src, 'asan', ['--mode', 'conf', '--set', 'absuffix', '--L', 9, '--D', 0], share=0.9)
     near = sum(r.stats.get('frames_with_offset_near_window', 0) for _, r, _ in c.units)
     c.extra['frames_with_offset_near_window'] = near
